@@ -588,11 +588,15 @@ def all_filters(pm):
             f = seq(trim, plus(nonblank), trim)
             fl.append((("literal", "number"), (lambda e, f=f: and_(e, f)), "Literal::Int/Float: parse of the trimmed span"))
     # P4
+    if pm.p4 and pm.p4.get("unknown"):
+        raise Unsupported(pm.p4["unknown"])
     if pm.p4:
         # span(function_expr) must be  name "(" ...  : enforced by intersecting with  L(function_name) "(" Sigma*
         fl.append((("function_expr",), "P4", "P4 function_expr: `%s` directly after the name" % pm.p4["char"]))
     # P8
     ops = pm.ops
+    if ops.get("unknown"):
+        raise Unsupported(ops["unknown"])
     if not ops["other_accepted"]:
         allowed = alt(*[lit(o) for o in ops["accepted"]]) if ops["accepted"] else cset([])
         fl.append((("comp_op",), (lambda e, a=allowed: and_(e, a)), "P8 comp_op in {%s}" % " ".join(ops["accepted"])))
